@@ -7,7 +7,7 @@ from .. import oracles
 from ..dispatch import Dispatch, handler_traversal
 from ..grammar import Grammar, PARSER, LEXER
 from ..model import AnalysisError, AnchorMissing, EnumRef, dotted, find_assign, last_attr, unparse, walk_no_nested
-from ..paths import paths, calls_on_path
+from ..paths import paths, calls_on_path, cond_atoms
 from ..vmmodel import VMModel, VM, IR
 from . import c08, c03
 from .. import lowering
@@ -568,6 +568,20 @@ def run_R01_5(model, col, vm):
         # the guarding comparison must compare the same side with the same operand type
         guards = [n for n in ast.walk(vb) if isinstance(n, ast.If) and any(isinstance(c, ast.Call) and last_attr(c) == setter for c in ast.walk(n))]
         gok = all(f"{side}().GetType()" in unparse(g.test) and f"GetOperandType({idx})" in unparse(g.test) for g in guards) and bool(guards)
+        # polarity: the cast is inserted on the paths where the two types were found *different*, and only there
+        np15 = vb.args.args[1].arg
+        env15 = {}
+        from ..sem import local_env as _le15
+
+        env15 = _le15(vb, allow_impure=True)
+        for evs_, st_ in paths(vb.body):
+            if st_ == "raise":
+                continue
+            at_ = cond_atoms(evs_, env15)
+            eqv = next((v for k, v in at_.items() if f"{side}().GetType()" in k and f"GetOperandType({idx})" in k and " == " in k), None)
+            casts_here = any(last_attr(c) == setter and any(isinstance(x, ast.Call) and last_attr(x) == "CastExpression" for x in ast.walk(c)) for c in calls_on_path(evs_))
+            if (casts_here and eqv is not False) or (not casts_here and eqv is False):
+                gok = False
         col.check(good and gok, "R01.5", f"{CASTS}::v_BinaryExpression {side[3:].lower()} operand",
                   f"{side[3:]} operand is cast to GetOperandType({idx}) when its type differs",
                   f"{side[3:].lower()} operand is not (only) converted to operand type {idx}", CASTS, vb)
